@@ -82,6 +82,8 @@ func ZZ_C06_factory_alloc_args() {
 		l.eni = nil
 		l.status = statusInit
 		l.ipv4, l.ipv6 = make(Set), make(Set)
+		f.cloud4, f.cloud6 = map[netip.Addr]bool{}, map[netip.Addr]bool{}
+		f.eniLive = false
 		slots = nil
 	}
 	// pending requests admitted through Allocate: len(set)+pending <= cap
@@ -137,6 +139,11 @@ func ZZ_C06_factory_alloc_args() {
 	l.factoryAllocWorker(ctx)
 	zz.OnYield(nil)
 	zz.Assert(zz.LockState(l.cond.L) == 0, "the pool lock is released when the worker stops")
+	// the quota arithmetic above is over the pool's per-family sets: it is only
+	// as good as those sets - whatever the cloud has on the interface (also
+	// what an assign call returned together with an error) is counted in the
+	// set of its own family
+	zz.Assert(zzTracked(l, f), "every address the cloud has on the interface is counted in the set of its own family, so that the quota check sees it")
 	zz.Reach("alloc-iteration-done")
 }
 
